@@ -245,7 +245,9 @@ func (r *Run) Require(name string, min int64) {
 }
 
 // Logf prints a progress line.
-func (r *Run) Logf(format string, a ...any) { fmt.Printf("[%s] "+format+"\n", append([]any{r.ID}, a...)...) }
+func (r *Run) Logf(format string, a ...any) {
+	fmt.Printf("[%s] "+format+"\n", append([]any{r.ID}, a...)...)
+}
 
 // Guard runs f and converts a Go panic inside it into a violation with the given
 // fingerprint prefix (used where the property says "never panics"). It returns true if f
